@@ -10,9 +10,18 @@
 
 History ops (JSON lists):
   ['W', d, sub, base, content, bad]   write file  <dir d>/[sub/]t<base>.html
+  ['WA', d, sub, base, content, bad, mtime]   write file with an explicit logical mtime, possibly
+                                      older than the current one (restore from backup, rsync -t);
+                                      the generator keeps it different from every mtime the loader
+                                      remembers for that file (a different content under a
+                                      remembered mtime is the limit of mtime-based reloading)
   ['T', d, sub, base]                 touch (new mtime, same content)
   ['X', d, sub, base]                 delete
   ['L', {base, sub, absd, rel, cls, enc, cb, fault}]   load
+  ['LR', {…}, before, content, bad]   load during which the file it opens (the first successful
+                                      `open` of directory()) is replaced by a new file (written
+                                      aside, renamed over the old name): before `open` / right
+                                      after `open` returned
 Config: {'cap', 'auto_reload', 'callback', 'path': [['D', d, insub] | ['F', d, checks]]}
 """
 import collections, os, re, shutil
@@ -85,12 +94,17 @@ def validate(cfg, ops):
             break
         if op[0] == 'W':
             ok = len(op) == 6 and op[1] in range(NDIRS)
+        elif op[0] == 'WA':
+            ok = len(op) == 7 and op[1] in range(NDIRS) and isinstance(op[6], int) and op[6] >= 0
         elif op[0] in ('T', 'X'):
             ok = len(op) == 4 and op[1] in range(NDIRS)
-        elif op[0] == 'L':
-            r = op[1] if len(op) == 2 else None
+        elif op[0] in ('L', 'LR'):
+            r = op[1] if len(op) == (2 if op[0] == 'L' else 5) else None
+            if op[0] == 'LR' and r is not None and not (isinstance(op[2], bool) and isinstance(op[3], int)
+                                                        and isinstance(op[4], bool)):
+                r = None
             ok = (isinstance(r, dict) and set(r) == {'base', 'sub', 'absd', 'rel', 'cls', 'enc', 'cb', 'fault'} and
-                  r['fault'] in (None, 'io', 'other') and
+                  r['fault'] in (None, 'io', 'nf', 'other') and
                   (r['rel'] is None or (r['rel'][0] == 'R' and len(r['rel']) == 2) or
                    (r['rel'][0] == 'A' and len(r['rel']) == 3 and r['rel'][1] in range(NDIRS))))
         else:
@@ -125,6 +139,9 @@ class PropSpec(object):
         if op[0] == 'W':
             self.fs[loc] = (op[4], op[5], self.clock)
             self.clock += 1
+        elif op[0] == 'WA':
+            self.fs[loc] = (op[4], op[5], op[6])
+            self.clock = max(self.clock, op[6] + 1)
         elif op[0] == 'T':
             if loc in self.fs:
                 c, b, _ = self.fs[loc]
@@ -133,19 +150,75 @@ class PropSpec(object):
         elif op[0] == 'X':
             self.fs.pop(loc, None)
 
+    def remembered(self, loc):
+        """the mtimes the loader remembers for a file (cached templates parsed from it)"""
+        return set(e.mtime for e in self.cache.values() if e.loc == loc)
+
+    def fresh_time(self, loc, m):
+        """may a modification of this file set mtime m?  It must differ from what the loader
+        remembers for the file (and, so that it is a modification at all, from the current one)"""
+        return m not in self.remembered(loc) and (loc not in self.fs or self.fs[loc][2] != m)
+
     def first_on_path(self, r, key, entries):
         """walk the path: ('found', loc, file, reloadable) | ('notfound',) | ('loadfunc',)"""
         for e in entries:
             if e[0] == 'F':
-                if r['fault'] == 'io':
-                    continue
+                if r['fault'] in ('io', 'nf'):
+                    continue        # the load function does not have it (IOError / TemplateNotFound)
                 if r['fault'] == 'other':
                     return ('loadfunc',)
             loc = locate(e, key)
             if loc is None or loc not in self.fs:
                 continue
-            return ('found', loc, self.fs[loc], e[0] == 'D' or e[2])
+            return ('found', loc, self.fs[loc], e[0] == 'D' or e[2], e[0])
         return ('notfound',)
+
+    def served(self, r, key, sp):
+        """the cache entry that answers this request without a parse, or None"""
+        cfg = self.cfg
+        e = self.cache.get(key)
+        if e is None:
+            return None
+        if not cfg['auto_reload']:
+            return e
+        if e.reloadable and e.loc in self.fs and self.fs[e.loc][2] == e.mtime:
+            # nothing changed in the file it came from
+            if self.strict and sp is not None:
+                f = self.first_on_path(dict(r, fault=None), key, sp[0])
+                if f[0] == 'found' and f[1] != e.loc:
+                    return None       # the file found first on the search path is another one now
+            return e
+        return None
+
+    def would_open(self, r):
+        """the file the load function of a directory *name* opens for this request (where a racing
+        replacement lands), or None: served from the cache, nothing found, a user's load function
+        delivers or raises first"""
+        key = resolve(self.cfg, r)
+        if key is None:
+            return None
+        sp = search_path(self.cfg, r, key)
+        if sp is None or self.served(r, key, sp) is not None:
+            return None
+        out = self.first_on_path(r, key, sp[0])
+        if out[0] == 'found' and out[4] == 'D':
+            return out[1]
+        return None
+
+    def load_race(self, r, before, content, bad, fired='predict', first=True):
+        """the property for a load raced by a replacement of the file it opens: it is the load and
+        the write in one of the two orders (`first`: the order this position suggests).
+        -> (expectation of the load, file replaced)"""
+        loc = self.would_open(r) if fired == 'predict' else fired
+        if loc is None:
+            return self.load(r), None
+        w = ['W', loc[0], loc[1], loc[2], content, bad]
+        if before == first:
+            self.fs_op(w)
+            return self.load(r), loc
+        exp = self.load(r)
+        self.fs_op(w)
+        return exp, loc
 
     def load(self, r):
         """-> expectation dict: kind 'ok'|'err', err class, serve ('cached', token) or ('new', loc,
@@ -158,17 +231,7 @@ class PropSpec(object):
         exp = {'key': key}
         e = self.cache.get(key)
         sp = search_path(cfg, r, key)
-        serve = None
-        if e is not None:
-            if not cfg['auto_reload']:
-                serve = e
-            elif e.reloadable and e.loc in self.fs and self.fs[e.loc][2] == e.mtime:
-                # nothing changed in the file it came from
-                serve = e
-                if self.strict and sp is not None:
-                    f = self.first_on_path(dict(r, fault=None), key, sp[0])
-                    if f[0] == 'found' and f[1] != e.loc:
-                        serve = None      # the file found first on the search path is another one now
+        serve = self.served(r, key, sp)
         if serve is not None:
             self.cache.move_to_end(key)
             exp.update(kind='ok', serve=('cached', serve.token), content=serve.content, loc=serve.loc,
@@ -188,7 +251,7 @@ class PropSpec(object):
                 if cfg['callback'] and r['cb']:
                     out = ('callback',)
             if out[0] == 'found':
-                _, loc, f, reloadable = out
+                _, loc, f, reloadable = out[:4]
                 ne = Entry()
                 ne.token, ne.content, ne.loc, ne.mtime, ne.reloadable = token, f[0], loc, f[2], reloadable
                 ne.cls, ne.enc = r['cls'], r['enc']
@@ -256,13 +319,13 @@ def gen_req(rng, cfg, existing=()):
     elif x < 0.18:
         r['absd'] = rng.randrange(NDIRS)
     if any(e[0] == 'F' for e in cfg['path']) and rng.random() < 0.2:
-        r['fault'] = rng.choice(['io', 'other'])
+        r['fault'] = rng.choice(['io', 'other', 'nf'])
     if r['rel'] and r['rel'][-1] and r['sub']:
         r['sub'] = False
     return r
 
 
-def gen_history(rng, maxlen=25, allow_shadow=0.5):
+def gen_history(rng, maxlen=25, allow_shadow=0.5, race=0.12, backwards=0.3):
     """-> (cfg, ops, shadow)"""
     cfg = gen_config(rng)
     spec = PropSpec(cfg, strict=True)
@@ -290,7 +353,7 @@ def gen_history(rng, maxlen=25, allow_shadow=0.5):
                           'cb': False, 'fault': None}])
         for op in ops:
             if op[0] == 'L':
-                if not shadow and reveals_shadow(spec, op[1]):
+                if not shadow and reveals_shadow(spec, op):
                     shadow = True
                     spec.strict = False
                 spec.load(op[1])
@@ -310,7 +373,7 @@ def gen_history(rng, maxlen=25, allow_shadow=0.5):
                           'enc': 0, 'cb': False, 'fault': None}])
         for op in ops:
             if op[0] == 'L':
-                if not shadow and reveals_shadow(spec, op[1]):
+                if not shadow and reveals_shadow(spec, op):
                     shadow = True
                     spec.strict = False
                 spec.load(op[1])
@@ -324,6 +387,18 @@ def gen_history(rng, maxlen=25, allow_shadow=0.5):
         if x < 0.24 or (not spec.fs and x < 0.6):
             content += 1
             op = ['W', d, sub, base, content, rng.random() < 0.08]
+            if rng.random() < backwards:
+                # a modification with an arbitrary mtime, preferably of a file a cached template
+                # came from and older than its current one
+                cached = sorted(set(e.loc for e in spec.cache.values() if e.loc in spec.fs))
+                if cached and rng.random() < 0.8:
+                    d, sub, base = rng.choice(cached)
+                cur = spec.fs.get((d, sub, base))
+                m = rng.randrange(0, spec.clock + 2)
+                if cur is not None and cur[2] > 0 and rng.random() < 0.7:
+                    m = rng.randrange(0, cur[2])
+                if spec.fresh_time((d, sub, base), m):
+                    op = ['WA', d, sub, base, content, rng.random() < 0.05, m]
         elif x < 0.31:
             if not spec.fs:
                 continue
@@ -339,7 +414,11 @@ def gen_history(rng, maxlen=25, allow_shadow=0.5):
             if resolve(cfg, r) is None:
                 continue
             op = ['L', r]
-            if not shadow and reveals_shadow(spec, r):
+            if rng.random() < 2 * race and (spec.would_open(r) is not None or rng.random() < 0.2):
+                # the file this load opens is replaced while the load runs
+                content += 1
+                op = ['LR', r, rng.random() < 0.4, content, rng.random() < 0.06]
+            if not shadow and reveals_shadow(spec, op):
                 # this load is outside the hypothesis of reload_current_partial (the cached template
                 # comes from a file that is no longer the first one on the search path)
                 if rng.random() >= allow_shadow:
@@ -347,19 +426,25 @@ def gen_history(rng, maxlen=25, allow_shadow=0.5):
                 shadow = True
                 spec.strict = False
         ops.append(op)
-        if op[0] == 'L':
-            spec.load(op[1])
-        else:
-            spec.fs_op(op)
+        spec_apply(spec, op)
     return cfg, ops, shadow
 
 
-def reveals_shadow(spec, r):
-    """does the full property demand something else for this load than its proved part?"""
+def spec_apply(spec, op):
+    if op[0] == 'L':
+        return spec.load(op[1])
+    if op[0] == 'LR':
+        return spec.load_race(op[1], op[2], op[3], op[4])
+    return spec.fs_op(op)
+
+
+def reveals_shadow(spec, op):
+    """does the full property demand something else for this load (`['L', r]` or `['LR', …]`) than
+    its proved part?"""
     import copy
     a, b = copy.deepcopy(spec), copy.deepcopy(spec)
     a.strict, b.strict = True, False
-    return a.load(r) != b.load(r)
+    return spec_apply(a, op) != spec_apply(b, op)
 
 
 # --------------------------------------------------------------------------
@@ -430,6 +515,9 @@ class RealRun(object):
         def load_fn(filename):
             if flags['fault'] == 'io':
                 raise IOError('injected')
+            if flags['fault'] == 'nf':
+                from genshi.template.loader import TemplateNotFound
+                raise TemplateNotFound(filename, [dirpath])
             if flags['fault'] == 'other':
                 raise LoadFuncError('injected')
             filepath = os.path.join(dirpath, filename)
@@ -455,6 +543,11 @@ class RealRun(object):
                 f.write(content_bytes(op[4], op[5]))
             os.utime(p, (T0 + self.clock, T0 + self.clock))
             self.clock += 1
+        elif op[0] == 'WA':
+            with open(p, 'wb') as f:
+                f.write(content_bytes(op[4], op[5]))
+            os.utime(p, (T0 + op[6], T0 + op[6]))
+            self.clock = max(self.clock, op[6] + 1)
         elif op[0] == 'T':
             if os.path.exists(p):
                 os.utime(p, (T0 + self.clock, T0 + self.clock))
@@ -546,6 +639,47 @@ class RealRun(object):
             self.flags['cb'] = False
             self.flags['fault'] = None
 
+    def load_race(self, r, before, content, bad):
+        """a load during which the first file that `directory()` opens successfully is replaced
+        (new file written aside with the next logical mtime, renamed over the name): before the
+        `open`, or right after it returned.  Nothing in the repository is touched: the name `open`
+        is shadowed in the loader module's globals for the duration of the call.
+        -> (kind, value, location replaced or None)"""
+        import builtins
+        import genshi.template.loader as LM
+        fired = []
+        run = self
+
+        def replace(path):
+            tmp = path + '.new'
+            with builtins.open(tmp, 'wb') as f:
+                f.write(content_bytes(content, bad))
+            os.utime(tmp, (T0 + run.clock, T0 + run.clock))
+            os.replace(tmp, path)
+            run.clock += 1
+            fired.append(run.loc_of_path(path))
+
+        def racing_open(path, *a, **kw):
+            if fired or not isinstance(path, str) or not os.path.isfile(path):
+                return builtins.open(path, *a, **kw)
+            if before:
+                replace(path)
+                return builtins.open(path, *a, **kw)
+            fo = builtins.open(path, *a, **kw)
+            replace(path)
+            return fo
+        had = 'open' in vars(LM)
+        saved = vars(LM).get('open')
+        LM.open = racing_open
+        try:
+            kind, val = self.load(r)
+        finally:
+            if had:
+                LM.open = saved
+            else:
+                del LM.open
+        return kind, val, (fired[0] if fired else None)
+
     def close(self):
         shutil.rmtree(self.root, ignore_errors=True)
 
@@ -564,12 +698,17 @@ def wire_history(cfg, ops):
     for op in ops:
         if op[0] == 'W':
             wops.append([Atom('W'), op[1], B(op[2]), op[3], op[4], B(op[5])])
+        elif op[0] == 'WA':
+            wops.append([Atom('WA'), op[1], B(op[2]), op[3], op[4], B(op[5]), op[6]])
         elif op[0] in 'TX':
             wops.append([Atom(op[0]), op[1], B(op[2]), op[3]])
         else:
             r = op[1]
-            wops.append([Atom('L'), r['base'], B(r['sub']), N if r['absd'] is None else r['absd'], rel(r['rel']),
-                         r['cls'], r['enc'], B(r['cb']), N if r['fault'] is None else Atom(r['fault'])])
+            w = [Atom(op[0]), r['base'], B(r['sub']), N if r['absd'] is None else r['absd'], rel(r['rel']),
+                 r['cls'], r['enc'], B(r['cb']), N if r['fault'] is None else Atom('io' if r['fault'] == 'nf' else r['fault'])]
+            if op[0] == 'LR':
+                w += [B(op[2]), op[3], B(op[4])]
+            wops.append(w)
     return proto.line(Atom('C15'), Atom('hist'), cfg['cap'], B(cfg['auto_reload']), B(cfg['callback']), path, wops)
 
 
@@ -597,8 +736,9 @@ def uptodate_view(run, seen):
     return out
 
 
-def real_answer(run, kind, val, seen=()):
-    """what the real loader did for one load, in the vocabulary of Driver/C15.lean histRun"""
+def real_answer(run, kind, val, seen=(), fired=False):
+    """what the real loader did for one load, in the vocabulary of Driver/C15.lean histRun
+    (`fired`: None for a plain load; for a racing load the location replaced, or False)"""
     from harness.proto import Atom, B, N
     snap = run.snapshot()
     if kind == 'ok':
@@ -609,4 +749,7 @@ def real_answer(run, kind, val, seen=()):
         res = [Atom('err'), Atom(val)]
     cache = [[[N if k[0] is None else k[0], B(k[1]), k[2]], o]
              for k, o in [(k or (-1, False, -1), o) for k, o in snap['order']]]
-    return [res, [cache, len(run.cb_log), len(run.inst_log), run.lock_depth(), uptodate_view(run, seen)]]
+    out = [res, [cache, len(run.cb_log), len(run.inst_log), run.lock_depth(), uptodate_view(run, seen)]]
+    if fired is not False:
+        out.append(0 if fired is None else 1)
+    return out
